@@ -19,7 +19,7 @@ from ..server.codec import codec_for
 SHARDS = {'quick': 8, 'thorough': 16}
 
 SCENARIOS = ['status', 'status-login', 'login-compressed', 'login-encrypted',
-             'play-plain']
+             'play-plain', 'plain-status']
 
 
 def play_traffic(io, codec, rng_bytes):
@@ -55,6 +55,9 @@ def make_handler(scenario, pv, budget, abrupt, state, rng_bytes):
     def login_and_play(io, threshold, encrypted):
         hs = scripts.read_handshake(io)
         state.setdefault('handshakes', []).append(hs)
+        # speak the protocol the client announced (the fallback login uses the
+        # default version, not the one the status reply would have named)
+        codec = codec_for(hs['protocol']) if hs else codec_for(pv)
         f = io.recv_frame()          # login start
         if f is None:
             return
@@ -70,13 +73,13 @@ def make_handler(scenario, pv, budget, abrupt, state, rng_bytes):
         io.send_frame(sid, sp, label='LoginSuccessPacket')
         play_traffic(io, codec, rng_bytes)
 
-    def status(io):
+    def status(io, protocol=pv):
         hs = scripts.read_handshake(io)
         state.setdefault('handshakes', []).append(hs)
         f = io.recv_frame()
         if f is None:
             return
-        text = json.dumps({'version': {'name': 'vf', 'protocol': pv},
+        text = json.dumps({'version': {'name': 'vf', 'protocol': protocol},
                            'description': {'text': 'x' * 30},
                            'players': {'max': 1, 'online': 0}})
         from ..ref import core_packets as ref
@@ -87,12 +90,29 @@ def make_handler(scenario, pv, budget, abrupt, state, rng_bytes):
         first = io.index == 0
         cut_here = (scenario in ('status', 'login-compressed',
                                  'login-encrypted', 'play-plain') and first) \
-            or (scenario == 'status-login' and io.index == 1)
+            or (scenario in ('status-login', 'plain-status')
+                and io.index == 1)
         if cut_here:
-            io.send_budget = budget
+            io.send_budget = max(budget, 0)
             state['cut_io'] = io
+            if budget < 0:
+                # crash point "-1": the peer goes away right after accepting,
+                # without reading anything
+                state['cut'] = True
+                finish(io)
+                return
         try:
-            if scenario in ('status', 'status-login') and first:
+            if scenario == 'plain-status':
+                # 0: a negotiation that ends in a version mismatch (leaves the
+                # negotiation reactor behind); 1: the plain status query under
+                # cut; anything further would be a login nobody asked for
+                if io.index == 0:
+                    status(io, 99999)
+                elif io.index == 1:
+                    status(io)
+                else:
+                    login_and_play(io, None, False)
+            elif scenario in ('status', 'status-login') and first:
                 status(io)
             elif scenario in ('status', 'status-login'):
                 login_and_play(io, 64 if scenario == 'status-login' else None,
@@ -121,7 +141,7 @@ def one_case(run, scenario, pv, default_pv, k, abrupt, rng_bytes, hook_log):
     w = {'scenario': scenario, 'pv': pv, 'cut_at': k, 'abrupt': abrupt}
     conn = None
     try:
-        if scenario in ('status', 'status-login'):
+        if scenario in ('status', 'status-login', 'plain-status'):
             allowed = {pv, default_pv}
             conn = pc.make_connection(server.port, rec,
                                       allowed_versions=allowed,
@@ -129,7 +149,33 @@ def one_case(run, scenario, pv, default_pv, k, abrupt, rng_bytes, hook_log):
         else:
             conn = pc.make_connection(server.port, rec, allowed_versions={pv})
         del hook_log[:]
-        conn.connect()
+        if scenario == 'plain-status':
+            from minecraft.networking import connection as C
+            conn.connect()                       # ends with VersionMismatch
+            if not pc.wait_idle(conn, 20.0):
+                return None, 'negotiation did not end'
+            if len(rec.exceptions) != 1:
+                return None, 'expected a version mismatch first: %r' % (
+                    rec.exceptions,)
+            del rec.exceptions[:]
+            del rec.packets[:]
+            rec.exits = 0
+            # delay injection at an existing suspension point: building the
+            # status reactor takes a while (harmless under the lock)
+            orig_init = C.StatusReactor.__init__
+
+            def slow_init(self, *a, **k):
+                import time
+                time.sleep(0.03)
+                return orig_init(self, *a, **k)
+            C.StatusReactor.__init__ = slow_init
+            try:
+                conn.status(handle_status=rec.statuses.append,
+                            handle_ping=False)
+            finally:
+                C.StatusReactor.__init__ = orig_init
+        else:
+            conn.connect()
         done = pc.wait_idle(conn, 20.0)
         if not done:
             return None, 'threads alive after watchdog (blocked?):\n' + \
@@ -155,7 +201,10 @@ def one_case(run, scenario, pv, default_pv, k, abrupt, rng_bytes, hook_log):
         run.count('empty_reads_total', sum(p.empty_reads for p in proxies))
         spun = [h for h in hook_log if 'SpinDetected' in h]
         phase = 'length-prefix' if io is None else None
-        if io is not None and cut:
+        if io is not None and cut and k < 0:
+            phase = 'on-accept'
+            w['cut_phase'] = phase
+        elif io is not None and cut:
             inside = [e for e in io.frame_log if e[1] < k < e[2]]
             phase = 'inside-frame' if inside else 'frame-boundary'
             w['cut_phase'] = phase
@@ -174,14 +223,47 @@ def one_case(run, scenario, pv, default_pv, k, abrupt, rng_bytes, hook_log):
         conns = len(server.connections)
         hs = state.get('handshakes', [])
         finished_clean = rec.exits >= 1 and not rec.exceptions
+        if scenario == 'plain-status':
+            if conns > 2:
+                run.violation('eof/status-query-became-login', 'a plain '
+                              'status query opened a further connection '
+                              '(a login nobody asked for)',
+                              dict(w, connections=conns, handshakes=hs[1:]))
+            elif cut and not rec.exceptions:
+                run.violation('eof/silent/plain-status', 'a plain status query'
+                              ' whose reply was cut short reported no error',
+                              dict(w, exits=rec.exits))
+            elif not cut and (rec.exceptions or len(rec.statuses) != 1):
+                run.violation('eof/complete-conversation-failed', 'complete '
+                              'status reply, yet error or no status',
+                              dict(w, exc=repr(rec.exceptions[:1])))
+            elif cut:
+                run.count('errors_reported')
+                run.count('cuts.' + (phase or 'x'))
+            return 'ok', w
         if cut:
             run.count('cuts.' + (phase or 'x'))
             if scenario == 'status':
-                fell_back = conns >= 2 and len(hs) >= 2 and \
-                    hs[1]['protocol'] == default_pv and \
-                    hs[1]['next_state'] == 2
+                logins = [h for h in hs if h and h['next_state'] == 2]
+                fell_back = conns >= 2 and len(logins) == 1 and \
+                    logins[0]['protocol'] == default_pv
                 if fell_back:
                     run.count('status_fallbacks')
+                    # the fallback session (served completely) must be an
+                    # ordinary one: nothing of the abandoned status connection
+                    # may leak into it
+                    fb = server.connections[1]
+                    want = [e[0] for e in fb.frame_log]
+                    got_fb = [type(p).__name__ for p in rec.packets
+                              if type(p).__name__ != 'ResponsePacket']
+                    if rec.exceptions or rec.exits != 1 or got_fb != want:
+                        run.violation(
+                            'eof/fallback-session-disturbed', 'the login that '
+                            'follows an unanswered status query did not run as'
+                            ' an ordinary session', dict(
+                                w, exc=repr(rec.exceptions[:1]),
+                                exits=rec.exits, delivered=got_fb[:6],
+                                expected=want[:6]))
                 if not (rec.exceptions or fell_back):
                     run.violation('eof/silent/status', 'neither an error nor '
                                   'the default-version fallback followed an '
@@ -283,7 +365,8 @@ def run(run):
                 total = w['sent']
                 run.extra.setdefault('stream_lengths', {})[
                     '%s@%d' % (scenario, pv)] = total
-                offsets = list(range(0, total + 1))      # every crash point
+                offsets = list(range(-1, total + 1))     # every crash point
+                # (-1 = the peer closes right after accepting)
                 modes = (False, True) if thorough else (False,)
                 for k in offsets:
                     for abrupt in modes:
@@ -306,7 +389,7 @@ def run(run):
                             run.sample(w)
     finally:
         threading.excepthook = old_hook
-    run.require('scenarios', 5)
+    run.require('scenarios', 6)
     run.require('errors_reported', 20)
     run.require('cuts.inside-frame', 10)
     run.require('cuts.frame-boundary', 20)
